@@ -10,6 +10,7 @@ use crate::{
     codec::*,
     core::{
         base_types::NonZero,
+        error::{CodecError, InvalidPacketHeader},
         properties::ReceiveMaximum,
         utils::{ByteLen, Encode, PacketID, SizedPacket},
     },
@@ -522,9 +523,8 @@ where
                 Ok(Left(ConnectRsp::try_from(connack)?))
             }
             RxPacket::Auth(auth) => Ok(Right(AuthRsp::try_from(auth)?)),
-            _ => {
-                unreachable!("Unexpected packet type.");
-            }
+            // Anything but CONNACK or AUTH at this point is a protocol error of the peer.
+            _ => Err(CodecError::from(InvalidPacketHeader).into()),
         }
     }
 
@@ -570,9 +570,8 @@ where
                 Ok(Left(ConnectRsp::try_from(connack)?))
             }
             RxPacket::Auth(auth) => Ok(Right(AuthRsp::try_from(auth)?)),
-            _ => {
-                unreachable!("Unexpected packet type.");
-            }
+            // Anything but CONNACK or AUTH at this point is a protocol error of the peer.
+            _ => Err(CodecError::from(InvalidPacketHeader).into()),
         }
     }
 
